@@ -18,7 +18,7 @@ def _h(pkg):
     return (pkg, [pkg + "/zz_verif_c19_test.go", pkg + "/zz_verif_c19_common_test.go"], "c19_" + pkg.replace("/", "_"))
 
 
-HARNESSES = [_h("crypto/dpop"), _h("vdr/resolver"), _h("vcr/revocation"), _h("network/dag/tree"), _h("zzverif/c19bb"), _h("auth/api/iam"), _h("vdr/didnuts"), _h("network/transport/v2"), _h("vcr/verifier"), _h("auth/client/iam"), _h("discovery"), _h("http/client")]
+HARNESSES = [_h("crypto/dpop"), _h("vdr/resolver"), _h("vcr/revocation"), _h("network/dag/tree"), _h("zzverif/c19bb"), _h("auth/api/iam"), _h("vdr/didnuts"), _h("network/transport/v2"), _h("vcr/verifier"), _h("auth/client/iam"), _h("discovery"), _h("http/client"), _h("vdr/didweb")]
 
 # entry points whose code is inside a Lean model (everything else is sampled only)
 MODELLED = {
@@ -35,6 +35,10 @@ MODELLED = {
     "murmur": "twmb/murmur3 vs NutsModel/C19/Murmur.lean (tie of the concrete hash instance)",
     "slc.update": "vcr/revocation/statuslist2021_verifier.go update + validate (statuslist_total); Verify's per-entry loop is in the model (statuslist_total) but only sampled on the real code",
     "didkey": "vdr/didkey/resolver.go Resolve: checks between the DID string and the library calls (didkey_total)",
+    "didweb.pct": "vdr/didweb/util.go percentDecodeString + percentDecodeChar + isHex + unhex, output compared byte for byte (didweb_percent_decode_total, _length, _only_allowed)",
+    "didweb.unescape": "net/url PathUnescape vs NutsModel/C19/DidWeb.lean pathUnescape (tie of the re-implemented library function)",
+    "didweb.url": "vdr/didweb/util.go DIDToURL on any DID value (didweb_did_to_url_total, didweb_did_to_url_ok); url.Parse / net.ParseIP are data",
+    "didweb.resolve": "vdr/didweb/web.go Resolver.Resolve over a stub HTTP doer: DIDToURL, request path, status, content type, read, null-entry guard BEFORE go-did, id comparison (didweb_resolve_total under the go-did contract, didweb_resolve_ok)",
     "didnuts.callback": "vdr/didnuts/ambassador.go handleNetworkEvent → callback: integrity checks, null-entry pre-check BEFORE json.Unmarshal into did.Document, validator, hand-over (ambassador_callback_total under the go-did contract, ambassador_callback_rejects); the REAL subscriber is called with a stub store",
     "callback": "auth/api/iam/openid4vp.go withCallbackURI and validatePresentationNonce's nonces[0] inside handleAuthorizeResponseSubmission (callback_total_in_handler; the stand-alone withCallbackURI is partial)",
 }
@@ -70,6 +74,39 @@ def _cls(line):
     if "STATE-CHANGED" in line:
         out.add("state-changed-on-error")
     return out
+
+
+def _didweb_oracle(kind, op_text, line, facts):
+    """the did:web theorems evaluated on the IMPLEMENTATION's own output (not on the model's)"""
+    try:
+        op = json.loads(op_text)
+    except Exception:
+        return None
+    dec = set(int(x) for x in facts.get("didwebDecodeSet", []))
+    if kind == "didweb.pct":
+        s, out = op["s"], list(bytes.fromhex(line.split(" ")[1] if " " in line else ""))
+        if len(out) > len(s):
+            return "percentDecodeString output is longer than its input"
+        new = [b for b in out if b not in s and b not in dec]
+        if new:
+            return f"percentDecodeString introduced byte {new[0]} that is neither in the input nor in the decode set"
+        for x in (47, 37, 46, 63, 35, 92):
+            if x in out and x not in s:
+                return f"percentDecodeString introduced the structural byte {chr(x)!r}"
+    if kind == "didweb.resolve":
+        h = op["http"]
+        path = bytes.fromhex(line.split("path=")[1]) if "path=" in line else b""
+        if not path.endswith(b"/did.json"):
+            return "a document was returned from a URL that does not end in /did.json"
+        if not (200 <= h["status"] < 300):
+            return "a document was returned for a non-2xx response"
+        if h.get("ct") not in [c.strip('"') for c in facts.get("didwebContentTypes", [])]:
+            return "a document was returned for a content type outside the allow-list"
+        if h["nullEntries"]:
+            return "a body with null key entries was handed to go-did"
+        if op["method"] != "web" or not h["idEquals"]:
+            return "a document was returned for another DID"
+    return None
 
 
 def run(ctx):
@@ -195,6 +232,10 @@ def run(ctx):
                 # ---- direct property oracle on the implementation's own outcome
                 if kind in NOT_AN_ENTRY_POINT:
                     continue
+                if kind.startswith("didweb.") and line.startswith("ok"):
+                    why = _didweb_oracle(kind, ops[i], line, facts or {})
+                    if why:
+                        violate(f"C19:{kind}:property-broken", f"{MODELLED.get(kind, kind)}: {why} (impl line: {line[:160]})", ops[i])
                 for c in sorted(_cls(line)):
                     sig = f"C19:{kind}:{c}"
                     violate(sig, f"{MODELLED.get(kind, kind)}: input makes the real code end in `{c}` (impl line: {line[:200]})", ops[i])
